@@ -171,6 +171,7 @@ Section Refs.
       apply named_resolves. unfold implementers in Ho. apply filter_In in Ho. tauto.
     - (* union members *)
       apply Forall_forall. intros x Hx. apply in_map_iff in Hx. destruct Hx as [m [<- Hm]].
+      apply filter_In in Hm. destruct Hm as [Hm _].
       apply named_resolves. rewrite forallb_forall in Hg.
       eapply mention_listed; eauto. eapply subset_trans; eauto.
   Qed.
@@ -209,11 +210,11 @@ End Refs.
 
 (** the same about the implementation's (model's) own output *)
 Theorem introspect_refs_resolve (D : Type) (pr : sty -> option gval -> D) S F r :
-  depth_ok S = true -> gating_coherent S F = true -> interfaces_declared_once S = true -> locations_known S = true ->
+  depth_ok S = true -> interfaces_declared_once S = true -> locations_known S = true ->
   refs_defined S = true -> gating_nested S = true -> roots_visible S F = true ->
   introspect pr S F = IntroOk r -> refs_resolve (normalise r) = true.
 Proof.
-  intros H1 H2 H3 H4 H5 H6 H7 Hr.
-  destruct (introspect_describes D pr S F H1 H2 H3 H4) as [r' [Hr' E]]. rewrite Hr in Hr'. inversion Hr'; subst r'.
+  intros H1 H3 H4 H5 H6 H7 Hr.
+  destruct (introspect_describes D pr S F H3 H1 H4) as [r' [Hr' E]]. rewrite Hr in Hr'. inversion Hr'; subst r'.
   rewrite E. apply describe_refs_resolve; auto.
 Qed.
